@@ -48,6 +48,10 @@ pub enum Case {
 	FailAt { blocks: u32 },
 	/// two parts over two channels; which part goes first, ticks / blocks in between, mismatch kind
 	Mpp { first: usize, split: u64, ticks_between: u32, blocks_between: u32, mismatch: u8, policy: u8 },
+	/// two parts over two channels whose onion fields are chosen independently from a small menu
+	/// (0 plain, 1 two odd custom TLVs, 2 an odd custom TLV, 3 an even custom TLV, 4 odd + even, 5 the even
+	/// TLV with another value, 6 another odd TLV); `first` = which channel's part arrives first
+	MppFields { first: usize, f1: u8, f2: u8 },
 	/// the penultimate hop (an LSP) skims a fee and the recipient accepts underpaying HTLCs; the
 	/// payment is held for `ticks` timer ticks and then claimed
 	Skimmed { skim_msat: u64, ticks: u32 },
@@ -435,6 +439,79 @@ pub fn run_case(c: &Case) -> Result<CaseResult, (String, String)> {
 				claimable_shown: !s.claimable.is_empty(),
 			})
 		},
+		Case::MppFields { first, f1, f2 } => {
+			use lightning::ln::outbound_payment::RecipientCustomTlvs;
+			let total = m;
+			let secret = register(&mut w, hash, Some(m), 7200);
+			add_payment(&mut w, pre, hash, secret, total, ClaimPolicy::Hold, true);
+			let parts = [(chans[*first], 20_000_000u64), (chans[1 - *first], total - 20_000_000)];
+			let menu = |k: u8| -> (Option<Vec<u8>>, Vec<(u64, Vec<u8>)>) {
+				match k {
+					0 => (None, vec![]),
+					1 => (None, vec![(65537, vec![1]), (65539, vec![9])]),
+					2 => (None, vec![(65537, vec![1])]),
+					3 => (None, vec![(65536, vec![2])]),
+					4 => (None, vec![(65536, vec![2]), (65537, vec![1])]),
+					5 => (None, vec![(65536, vec![3])]),
+					_ => (None, vec![(65539, vec![9])]),
+				}
+			};
+			let mk = |k: u8| {
+				let (md, tlvs) = menu(k);
+				let mut f = RecipientOnionFields::secret_only(secret, total).with_custom_tlvs(RecipientCustomTlvs::new(tlvs).unwrap());
+				f.payment_metadata = md;
+				f
+			};
+			let mut id2 = hash.0;
+			id2[0] ^= 1;
+			w.send_raw(0, &[(1, parts[0].0)], parts[0].1, hash, mk(*f1), PaymentId(hash.0), 60);
+			w.run_to_quiescence(400);
+			w.send_raw(0, &[(1, parts[1].0)], parts[1].1, hash, mk(*f2), PaymentId(id2), 60);
+			w.run_to_quiescence(600);
+			let shown: Vec<(u64, Option<Vec<u8>>, Vec<(u64, Vec<u8>)>)> = w
+				.obs
+				.iter()
+				.filter_map(|o| match o {
+					Obs::Event { node: 1, ev: Event::PaymentClaimable { payment_hash, amount_msat, onion_fields, .. } } if *payment_hash == hash => {
+						let of = onion_fields.clone();
+						Some((*amount_msat, of.as_ref().and_then(|f| f.payment_metadata.clone()), of.map(|f| f.custom_tlvs().clone()).unwrap_or_default()))
+					},
+					_ => None,
+				})
+				.collect();
+			for _ in 0..3 {
+				w.nodes[1].cm.timer_tick_occurred();
+				w.pump();
+				w.run_to_quiescence(400);
+			}
+			let s = seen(&w, &hash);
+			no_error(&w, &hash)?;
+			let ((md1, t1), (md2, t2)) = (menu(*f1), menu(*f2));
+			let even = |t: &Vec<(u64, Vec<u8>)>| t.iter().filter(|x| x.0 % 2 == 0).cloned().collect::<Vec<_>>();
+			// fields a recipient must understand (metadata, even TLVs) have to agree; odd TLVs may differ, but
+			// only those carried by every part may be reported (nothing that depends on the arrival order)
+			let agree = md1 == md2 && even(&t1) == even(&t2);
+			if !agree {
+				if !shown.is_empty() {
+					return Err(viol("mismatching-parts-shown", format!("parts with onion fields ({:?},{:?}) and ({:?},{:?}) were shown as claimable: {:?}", md1, t1, md2, t2, shown)));
+				}
+				if s.fulfills != 0 {
+					return Err(viol("mismatching-parts-shown", "parts with differing onion fields were fulfilled".into()));
+				}
+				return Ok(CaseResult { label: format!("fields-differ none f{}x{}", s.fulfills, s.fails), claimable_shown: false });
+			}
+			if shown.len() != 1 || shown[0].0 != total {
+				return Err(viol("complete-mpp-not-shown", format!("both parts arrived with agreeing required fields ({:?},{:?}) / ({:?},{:?}): PaymentClaimable {:?}", md1, t1, md2, t2, shown)));
+			}
+			let common: Vec<(u64, Vec<u8>)> = t1.iter().filter(|x| t2.contains(x)).cloned().collect();
+			if shown[0].1 != md1 || shown[0].2 != common {
+				return Err(viol(
+					"claimable-onion-fields",
+					format!("PaymentClaimable reports metadata {:?} custom TLVs {:?}; the parts carried ({:?},{:?}) and ({:?},{:?}), common to both: {:?}", shown[0].1, shown[0].2, md1, t1, md2, t2, common),
+				));
+			}
+			Ok(CaseResult { label: format!("fields-agree shown tlvs={}", common.len()), claimable_shown: true })
+		},
 		Case::Skimmed { skim_msat, ticks } => {
 			// A - B(LSP, intercepts) - C(accepts underpaying HTLCs)
 			let mut cb = user_config(Ct::Static);
@@ -634,6 +711,13 @@ pub fn cases(tier: Tier) -> Vec<Case> {
 	for skim in [1u64, 1000, 1_000_000] {
 		for ticks in [0u32, 1, 2, 4] {
 			v.push(Case::Skimmed { skim_msat: skim, ticks });
+		}
+	}
+	for first in [0usize, 1] {
+		for f1 in 0u8..=6 {
+			for f2 in 0u8..=6 {
+				v.push(Case::MppFields { first, f1, f2 });
+			}
 		}
 	}
 	for first in [0usize, 1] {
